@@ -176,6 +176,14 @@ void verif_after_resume(int me){
         !verif_env_busy[2] ? 2 :
 #endif
         VN - 1;
+#if VERIF_STEAL_ANY    /* any idle worker may be the one that steals / pops the thread (solver's choice), not just the lowest-numbered */
+    { long c_ = nondet_long();
+      if (c_ == 0 && !verif_env_busy[0]) e = 0; else if (c_ == 1 && !verif_env_busy[1]) e = 1;
+#if VN > 2
+      else if (c_ == 2 && !verif_env_busy[2]) e = 2;
+#endif
+    }
+#endif
     verif_check(!verif_env_busy[e], "model: an idle worker exists for every runnable thread");
     if (e == 0) { EV0.this_thread = verif_td(me); } else if (e == 1) { EV1.this_thread = verif_td(me); }
 #if VN > 2
